@@ -5,7 +5,7 @@ import (
 	"fmt"
 	"math/big"
 
-	"go.1password.io/spg"
+	_ "go.1password.io/spg"
 )
 
 // ---------------------------------------------------------------------------
@@ -103,7 +103,7 @@ func init() {
 func runC09(c *Ctx, si interface{}) {
 	s := si.(*C09Spec)
 	curOrders = s.Orders
-	var g spg.Generator
+	var g interface{}
 	var desc string
 	outputs := big.NewInt(1)
 	if s.Char != nil {
